@@ -43,6 +43,10 @@ def main():
     src = sys.argv[1]
     tests = '--tests' in sys.argv
     files = sorted(glob.glob(os.path.join(src, '*.diff')))
+    for a in sys.argv[2:]:
+        if a.startswith('--only='):
+            pats = a[7:].split(',')
+            files = [f for f in files if any(x in os.path.basename(f) for x in pats)]
     st.run_check('C04', '/repo')
     silent = []
     with cf.ThreadPoolExecutor(max_workers=8) as ex:
